@@ -457,6 +457,11 @@ vfps::HDF5File::readPhaseSpace( std::string fname
     std::vector<hsize_t> ps_dims(rank);
     ps_space.getSimpleExtentDims( ps_dims.data(), nullptr );
 
+    // a data set without any record cannot be a start (and must not be a divisor)
+    if (rank < 1 || ps_dims[0] == 0) {
+        throw HDF5FileException("No phase space record found.");
+    }
+
     std::vector<hsize_t> ps_offset;
     std::vector<hsize_t> ps_ext;
     use_step = (ps_dims[0]+use_step)%ps_dims[0];
